@@ -16,7 +16,7 @@ PROPERTY = 'C17'
 HASHSEED_INDEPENDENT = True
 
 TIERS = {
-    'quick': dict(fork=False, worlds=16, runs=1200, batch=100, det_runs=24, soft_timeout=240,
+    'quick': dict(fork=False, worlds=16, runs=4000, batch=200, det_runs=24, soft_timeout=240,
                   variants=['no_use_list_scan', 'merge_ignores_lookup', 'hol_no_comb_merge',
                             'lookup_not_updated', 'explain_drops_comb'],
                   variant_budget=600, min_tests=150),
